@@ -54,6 +54,7 @@ type Contract struct {
 	Inline    bool   // always inline at call sites even though it has a contract (contract still verified)
 	NoInline  bool
 	Props     []string // properties this function's obligations serve (optional)
+	FunctionOf string  // `function f`: the spec function f names the value this (deterministic) function returns
 	File      string
 	Line      int
 }
@@ -66,7 +67,7 @@ type ContractSet struct {
 
 var clauseKeywords = map[string]bool{"func": true, "use": true, "requires": true, "ensures": true,
 	"assigns": true, "decreases": true, "loop": true, "invariant": true, "trusted": true,
-	"inline": true, "noinline": true, "unroll": true, "props": true}
+	"inline": true, "noinline": true, "unroll": true, "props": true, "function": true}
 
 func splitLabel(s string) (string, string) {
 	s = strings.TrimSpace(s)
@@ -141,6 +142,8 @@ func (cs *ContractSet) loadFile(path string) error {
 			cur.Uses = append(cur.Uses, strings.Fields(rest)...)
 		case "props":
 			cur.Props = append(cur.Props, strings.Fields(rest)...)
+		case "function":
+			cur.FunctionOf = rest
 		case "trusted":
 			cur.Trusted = true
 			cur.TrustWhy = rest
